@@ -191,7 +191,9 @@ func (r *Runner) reader() {
 				r.sum.Extra["distribution"] = dist
 			}
 			oc := "error"
-			if ok, _ := c.Impl["ok"].(bool); ok {
+			if o, isStr := c.Impl["outcome"].(string); isStr {
+				oc = o
+			} else if ok, _ := c.Impl["ok"].(bool); ok {
 				oc = "ok"
 			} else if cl, _ := c.Impl["_class"].(string); cl != "" {
 				oc = "error:" + cl
